@@ -137,6 +137,7 @@ def run(P, R, tier):
     cache_rule(P, R)
     cachereset_rule(P, R)
     prfallback_rule(P, R)
+    gasdup_rule(P, R)
     quick_rule(P, R)
     prtemp_rule(P, R)
     vmowner_rule(P, R)
@@ -678,3 +679,27 @@ def prfallback_rule(P, R):
         else:
             R.violation(RULE, inst, "%s returns the default at line %d for a gas that is not a component of the gas phase in use without looking at the pure-phase values "
                         "(phase::pr_in): PR_P / PR_PHI of a gas in EQUILIBRIUM_PHASES are 0 / 1 whenever a GAS_PHASE is present" % (inst, bad), file=f["file"], line=bad, function=q)
+
+
+def gasdup_rule(P, R):
+    """"partial pressures are mole-fraction shares of the total and sum to it": every component of a gas phase must be a different phase.
+    Gas names are resolved with phase_bsearch, without regard to case, so `CO2(g)` and `co2(g)` are one phase; read_gas_phase merges
+    repeated lines through a map keyed by the typed name, which keeps the two spellings apart unless keys that compare equal without
+    regard to case are erased before the store.  Two components of one phase count its moles and pressure twice in the totals."""
+    RULE = "C19.gasdup"
+    R.rule(RULE, "read_gas_phase: the merge of repeated gas lines is keyed without regard to case (no two components of one phase)", minimum=1)
+    f = P.one("Phreeqc::read_gas_phase")
+    stores = [c for c in T.calls(f["body"]) if T.callee_name(c) == "operator[]" and c[4] and "cxxGasComp" in str(c[2].get("ret", "")) and "map" in str(c[2].get("ret", ""))]
+    if not stores:
+        R.anchor_missing(RULE, "read_gas_phase: the map that merges repeated gas lines was not found")
+        return
+    for c in stores:
+        mp = "".join(T.text(c[4][0], -40).split())
+        erases = [x for x in T.calls(f["body"]) if T.callee_name(x) == "erase" and T.call_obj(x) is not None and "".join(T.text(T.call_obj(x), -40).split()) == mp and x[1] < c[1]]
+        nocase = [x for x in T.calls(f["body"]) if T.callee_name(x) == "strcmp_nocase" and x[1] < c[1]]
+        inst = "merge@%d" % (c[1] - f["line"])
+        if erases and nocase:
+            R.ok(RULE, inst, "keys equal without regard to case are erased before the store")
+        else:
+            R.violation(RULE, inst, "read_gas_phase merges repeated gas lines under the name as typed: `CO2(g)` and `co2(g)` stay two components of one phase, whose moles and "
+                        "partial pressure are counted twice (the partial pressures no longer sum to the total)", file=f["file"], line=c[1], function=f["q"])
